@@ -5,6 +5,7 @@ import Qryn.Proofs.ReadPipeHExec
 import Qryn.Proofs.ReadCensus
 import Qryn.Proofs.ReadCensusTyped
 import Qryn.Proofs.ReadStageDiscipline
+import Qryn.ReadSide.Controllers
 /-! # C12 — no query can crash, hang or leak work on the read side   (PARTIAL: bookkeeping proved, runtime explored)
 
 Property theorems only. Models: `Qryn.ReadSide` (Params.lean: controllers' parameter handling, `FixPeriodPlanner`,
@@ -356,6 +357,72 @@ theorem params_total :
     · rfl
     · simp only []
       split <;> rfl
+
+/-- every step outcome sequence of a handler that defers `tamePanic` ends in an HTTP response, provided the status classes
+    written next to the steps are responses -/
+theorem runSteps_answered (steps : List (Resp × Out)) (h : steps.all (fun s => s.1.answered) = true) :
+    (runSteps true steps).answered = true := by
+  induction steps with
+  | nil => rfl
+  | cons s rest ih =>
+    obtain ⟨c, o⟩ := s
+    simp only [List.all_cons, Bool.and_eq_true] at h
+    cases o with
+    | ok => exact ih h.2
+    | err => exact h.1
+    | fault => rfl
+
+/-- **handler_status_codes_as_modelled** (T). The status codes of the error answers of every handler of reader/controller
+    (`PromError(N, …)`, `defaultError(w, N, …)`; literals — anything else is a GENFAIL), in source order, are the ones the
+    controller models use, and every one of them is a 4xx or a 5xx. -/
+theorem handler_status_codes_as_modelled :
+    ReadSide.handlerCodes = modelledCodes ∧
+    (∀ h ∈ ReadSide.handlerCodes, ∀ c ∈ h.2, classOfCode c = .err4xx ∨ classOfCode c = .err5xx) := by decide
+
+/-- **params_total_all.** The remaining registered handlers of the read side — Loki labels / label values / series,
+    Prometheus labels / label values / series / metadata / instant query, Tempo search (tags and TraceQL) / tags v1, v2 /
+    tag values v1, v2 / echo, Pyroscope ProfileTypes / LabelNames / LabelValues / SelectMergeStacktraces / SelectSeries /
+    SelectMergeProfile / Series / AnalyzeQuery / GetProfileStats / Settings / render-diff, the static answers: whatever
+    each parameter parses to (absent, rejected, any int64), whatever each step of the handler does (returns, returns an
+    error, FAULTS), the request ends in an HTTP response — result, 4xx or 5xx — never in a dropped connection. -/
+theorem params_total_all :
+    (∀ pl fo s e sv, (lokiLabels pl fo s e sv).answered = true) ∧
+    (∀ pl fo s e ne sv, (lokiValues pl fo s e ne sv).answered = true) ∧
+    (∀ pl fo s e nm sv, (lokiSeries pl fo s e nm sv).answered = true) ∧
+    (∀ pl fo sv, (promLabels pl fo sv).answered = true) ∧
+    (∀ pl pa ne sv s0, (promLabelValues pl pa ne sv s0).answered = true) ∧
+    (∀ pl fo f2 sv, (promSeries pl fo f2 sv).answered = true) ∧
+    (∀ pl, (promMetadata pl).answered = true) ∧
+    (∀ pl fo t qe nq ex wr, (promQueryInstant pl fo t qe nq ex wr).answered = true) ∧
+    (∀ pl sv, (tempoTagsV1 pl sv).answered = true) ∧
+    (∀ pl s e v1 v2 m, (tempoTagsV2 pl s e v1 v2 m).answered = true) ∧
+    (∀ pl mi ma li s e hq ql tg, (tempoSearch pl mi ma li s e hq ql tg).answered = true) ∧
+    (staticAnswer.answered = true) ∧
+    (∀ pa sv ma, (profEndpoint pa sv ma).answered = true) ∧
+    (∀ sv ma, (profNoBody sv ma).answered = true) ∧
+    (∀ mi a b c d sv, (profRenderDiff mi a b c d sv).answered = true) := by
+  refine ⟨?_, ?_, ?_, ?_, ?_, ?_, ?_, ?_, ?_, ?_, ?_, rfl, ?_, ?_, ?_⟩ <;> intros <;> exact runSteps_answered _ rfl
+
+/-- **tail_upgrade_total_partial.** The websocket tail up to the upgrade: plugins, the `query` parameter, the service call
+    (`logql_transpiler_v2.Transpile` runs here, on the handler goroutine), the upgrade. The handler has NO
+    `defer tamePanic`, so the statement needs the hypothesis that neither the plugins nor the service call FAULT (they
+    may fail): then every outcome is an HTTP response — 500, 200 with an empty body (empty query / refused query), the
+    upgrader's 400, or the 101 upgrade. That the parser and planner constructors do not fault is explored (typed
+    census: `reviewedWide`; 200 000 generated and mutated queries), not proved. -/
+theorem tail_upgrade_total_partial (plugins svc : Out) (queryEmpty upgradeOk : Bool)
+    (hp : plugins ≠ .fault) (hs : svc ≠ .fault) : (lokiTail plugins queryEmpty svc upgradeOk).answered = true := by
+  cases plugins <;> cases svc <;> cases queryEmpty <;> cases upgradeOk <;> first | rfl | contradiction
+
+/-- the full-strength statement for the tail is false: a fault in the service call on the un-recovered handler goroutine
+    drops the connection (net/http's recover keeps the process alive) -/
+def tail_upgrade_total_full : Prop :=
+  ∀ (plugins svc : Out) (queryEmpty upgradeOk : Bool), (lokiTail plugins queryEmpty svc upgradeOk).answered = true
+
+theorem tail_upgrade_total_counterexample : ¬ tail_upgrade_total_full := by
+  intro h
+  have := h .ok .fault false true
+  revert this
+  decide
 
 /-! ## the pinned tree violates the statement (witnesses kept) -/
 
